@@ -17,7 +17,7 @@ from harness import impl
 from harness.props import c04
 
 PROP = 'C03'
-GENERATED = ['RngConsts']
+GENERATED = ['RngConsts', 'GrowOps']
 DRIVER = 'Drivers/C03.lean'
 DRIVER_MODULES = ['StarsimModel.Model.Slots', 'StarsimModel.Model.Rng', 'StarsimModel.Model.Proto']
 RULE = ('every family of ss.dist_list x parameter mode (scalar / per-agent array / callable) x slot assignment with repeats x '
